@@ -38,7 +38,8 @@ func init() {
 					"date, err := time.Parse(time.RFC1123, retryAfter) ; err == nil":     "dateOk",
 					`seconds, err := strconv.Atoi(httpRsp.Header.Get("Retry-After")) ; err == nil`:          "secsOk",
 					`date, err := time.Parse(time.RFC1123, httpRsp.Header.Get("Retry-After")) ; err == nil`: "dateOk",
-					"err := c.waitForBackoff(ctx) ; err != nil":                          "waitFails"},
+					"err := c.waitForBackoff(ctx) ; err != nil":                          "waitFails",
+					"err = c.waitForBackoff(ctx) ; err != nil":                           "waitFails"},
 				// an error equal to a context error is in particular non-nil
 				Repl: map[string]string{"err == context.Canceled": "(postErr && errCanceled)", "err == context.DeadlineExceeded": "(postErr && errDeadline)", "httpRsp.StatusCode": "status",
 					"zero:*time.Duration": "(none : Option Int)", `httpRsp.Header.Get("Retry-After") == ""`: "(!raPresent)", `httpRsp.Header.Get("Retry-After") != ""`: "raPresent",
